@@ -139,6 +139,21 @@ impl DetectProp for C10 {
             if sorted != ranges || want.iter().cloned().collect::<Vec<_>>() != ranges {
                 cx.rep.fail("oracle", "C10:unicode-ranges", &format!("{}: {:?}", m.encoding(), ranges), &case.bytes, Some(s), &case.tag);
             }
+            // T3 for the accessor: the model's `unicodeRangesOf` over the dumped block table
+            if case.bytes.len() <= 20_000 {
+                let line = match m.decoded_payload() {
+                    Some(t) if !t.is_empty() => format!("uranges {}", hex(t.as_bytes())),
+                    Some(_) => "uranges -".to_string(),
+                    None => "uranges none".to_string(),
+                };
+                let model = cx.drv.ask(&line);
+                let real = format!("ok {}", ranges.iter().map(|r| format!("x{}", hex(r.as_bytes()))).collect::<Vec<_>>().join(","));
+                cx.rep.count("t3:unicode-ranges");
+                cx.rep.t3_compared += 1;
+                if model.trim_end() != real.trim_end() {
+                    cx.rep.fail("t3", "C10:unicode-ranges-model-disagrees", &format!("{}: impl {:?} || model {}", m.encoding(), ranges, model), &case.bytes, Some(s), &case.tag);
+                }
+            }
             // lookup by candidate name and by every label canonicalising to it
             for e in m.suitable_encodings() {
                 let mut labels: Vec<String> = vec![e.clone(), e.to_uppercase(), format!(" {}\t", e)];
